@@ -249,6 +249,15 @@ def cases(tier):
             if any(op[0] == "delete" for op in h[:-1]):
                 out.append({"kind": kind, "names": names, "ops": h, "hp": None, "quiet": True})
 
+    # 'crowded' variant: the sibling containers of the OTHER kinds in the same parent already hold entities with
+    # every name of the alphabet (names are unique per parent AND KIND: an array "x" never blocks a tag "x")
+    for kind in KINDS:
+        if not KINDS[kind]["link"] and not kind.startswith("source.sources"):
+            n0 = len(out)
+            add(kind, NAMES_Q, 2 if tier == "quick" else 3, [None])
+            for c in out[n0:]:
+                c["crowded"] = True
+            out[n0:] = [c for c in out[n0:] if not c.get("quiet")]
     for kind in KINDS:
         ab = KINDS[kind]["link"] or kind in AB_KINDS
         if tier == "quick":
@@ -420,6 +429,26 @@ def all_ids(f):
     return ids
 
 
+def crowd(parent, kind, names):
+    """fill every sibling container of another kind in the same parent with entities of every name"""
+    cname = kind.split(".")[1].split("@")[0]
+    if isinstance(parent, nix.File):
+        makers = {"blocks": lambda n: parent.create_block(n, "t"), "sections": lambda n: parent.create_section(n, "t")}
+    elif isinstance(parent, nix.Block):
+        makers = {"data_arrays": lambda n: mk_da(parent, n), "data_frames": lambda n: mk_df(parent, n), "tags": lambda n: mk_tag(parent, n),
+                  "multi_tags": lambda n: mk_mtag(parent, n), "groups": lambda n: parent.create_group(n, "t"),
+                  "sources": lambda n: mk_src(parent, n)}
+    elif isinstance(parent, nix.Section):
+        makers = {"sections": lambda n: parent.create_section(n, "t"), "props": lambda n: parent.create_property(n, [1])}
+    else:
+        return
+    for other, mk in makers.items():
+        if other == cname or (cname == "data_arrays" and other == "multi_tags"):
+            continue        # (a multi tag needs a positions array, which would itself be a member of block.data_arrays)
+        for nm in names:
+            mk(nm)
+
+
 def run_case(case):
     r = R()
     r.evals = 1
@@ -436,6 +465,8 @@ def run_case(case):
             K["setup"](f, names)
         else:
             K["setup"](f)
+        if case.get("crowded"):
+            crowd(K["parent"](f), kind, names)
         hp = case.get("hp")         # handle pattern, e.g. "AB": operations alternate between two container handles
         p = K["parent"](f)
         c = K["cont"](p)
